@@ -95,3 +95,33 @@ theorem C06_stop_rule (thr : Option ℝ) (maxIter : ℕ) (c0 : ℝ) (cent0 : Fin
       | none => simp [convStop, hthr] at hs
       | some t => exact ⟨t, rfl, by simpa [convStop, hthr] using hs⟩
 
+
+/-- **every sample is counted exactly once — ties included**: the E-step's counts add up to the number
+of samples, whatever the data (a sample exactly equidistant from two centroids goes to the first of
+them, in the counts and in the sums alike: both are defined through the same `assign`) -/
+theorem C06_counts_partition (cent : Fin (K+1) → Fin D → ℝ) (xs : List (Fin D → ℝ)) :
+    ∑ k, (kEStep cent xs).n k = xs.length := by
+  simp only [kEStep]
+  induction xs with
+  | nil => simp
+  | cons x xs ih =>
+    simp only [List.countP_cons, Finset.sum_add_distrib, ih, List.length_cons]
+    congr 1
+    rw [Finset.sum_eq_single (assign cent x)]
+    · simp
+    · intro k _ hk; simp [Ne.symm hk]
+    · intro h; exact absurd (Finset.mem_univ _) h
+
+/-- and the per-cluster sums add up to the sum of all samples (no sample enters two clusters' sums) -/
+theorem C06_sums_partition (cent : Fin (K+1) → Fin D → ℝ) (xs : List (Fin D → ℝ)) (j : Fin D) :
+    ∑ k, (kEStep cent xs).sums k j = (xs.map fun x => x j).sum := by
+  simp only [kEStep, lsum_eq]
+  induction xs with
+  | nil => simp
+  | cons x xs ih =>
+    simp only [List.map_cons, List.sum_cons, Finset.sum_add_distrib, ih]
+    congr 1
+    rw [Finset.sum_eq_single (assign cent x)]
+    · simp
+    · intro k _ hk; simp [Ne.symm hk]
+    · intro h; exact absurd (Finset.mem_univ _) h
